@@ -60,7 +60,8 @@ META = {
         "KeyError / IndexError / AttributeError of PyYAML's scalar constructors for matched and for explicitly tagged scalars, read from "
         "yaml/constructor.py; RecursionError because the Composer recurses per nesting level, read from yaml/composer.py), json.dumps, chr, int(str) (discharged by digit-set tests, also inter-procedurally through a parameter or "
         "a pure observation such as stream.peek()), file/URL access, Path stat, jinja2, HTMLParser.feed, Lexer, parselinenos, import_module, "
-        "2-argument getattr (discharged for dataclass field names and for class-level method-name tables), next() (discharged for itertools "
+        "StreamBuffer.forward(N) executed before the loop that validates the next N characters (IndexError past the end "
+        "sentinel), 2-argument getattr (discharged for dataclass field names and for class-level method-name tables), next() (discharged for itertools "
         "infinite iterators), urlparse/urlsplit, Sphinx's env.relfn2path() and download_reference(reftarget=..) on text that went through "
         "percent-decoding (Path.resolve(): 'embedded null byte'; discharged by try/except ValueError, a dominating NUL test, or - for "
         "download_reference - a successful relfn2path of the same text; text that never was percent-decoded is assumed NUL-free because "
@@ -1289,21 +1290,31 @@ def _loop_variant(w: ast.While, fi: FunctionInfo, corpus: Corpus) -> str | None:
 
         def from_children(e, depth=0):
             """``e`` denotes a member / sub-list of ``<cur>.children``."""
-            if depth > 3:
+            if depth > 8:
                 return False
             if isinstance(e, ast.Subscript):
                 return from_children(e.value, depth + 1)
             if isinstance(e, ast.Attribute) and e.attr == "children" and isinstance(e.value, ast.Name) and e.value.id == cur:
                 return True
-            if isinstance(e, ast.ListComp) and len(e.generators) == 1:
+            if isinstance(e, (ast.ListComp, ast.GeneratorExp)) and len(e.generators) == 1:
                 gen = e.generators[0]
                 return from_children(gen.iter, depth + 1) and isinstance(e.elt, ast.Name) and isinstance(gen.target, ast.Name) and e.elt.id == gen.target.id
+            if isinstance(e, ast.Call):
+                d_ = dotted(e.func)
+                # selections / reorderings of the children, and `next(<those>[, default])` (one of them, or the default)
+                if d_ in ("reversed", "list", "tuple", "iter", "sorted") and len(e.args) == 1:
+                    return from_children(e.args[0], depth + 1)
+                if d_ == "filter" and len(e.args) == 2:
+                    return from_children(e.args[1], depth + 1)
+                if d_ == "next" and 1 <= len(e.args) <= 2:
+                    return from_children(e.args[0], depth + 1)
+                return False
             if isinstance(e, ast.Name):
                 defs = [d for d in w.body if isinstance(d, ast.Assign) and len(d.targets) == 1 and isinstance(d.targets[0], ast.Name) and d.targets[0].id == e.id]
                 return len(defs) == 1 and e.id != cur and from_children(defs[0].value, depth + 1)
             return False
 
-        if isinstance(st.value, ast.Subscript) and from_children(st.value):
+        if isinstance(st.value, (ast.Subscript, ast.Name, ast.Call)) and from_children(st.value):
             others = [d for d in ast.walk(w) if isinstance(d, ast.Assign) and any(isinstance(t, ast.Name) and t.id == cur for t in d.targets) and d is not st]
             if not others and _every_cyclic_path(w, fi, lambda c: c is st):
                 return f"tree descent: `{cur}` is rebound to one of its own children on every cyclic path (finite tree)"
@@ -3294,42 +3305,58 @@ def r18_document_chosen_code(corpus: Corpus, rep: Report, tier: str):
             for c in f.local_nodes()
         )
 
+    def is_application(c: ast.AST) -> bool:
+        return isinstance(c, ast.Call) and ((dotted(c.func) == "setattr" and len(c.args) == 3) or (dotted(c.func) or "").split(".")[-1] == "validate_field")
+
+    def refused_at(f: FunctionInfo, c: ast.AST) -> bool:
+        """The statement only runs when the field is not global_only (a dominating test in ``f``)."""
+        fcfg = get_cfg(f)
+        for t, pol in fcfg.guards(fcfg.stmt_of(c)):
+            t = _single_def(f, t)
+            if isinstance(t, ast.Call) and isinstance(t.func, ast.Attribute) and t.func.attr == "get" and unparse(t.func.value).endswith(".metadata") and t.args and isinstance(t.args[0], ast.Constant) and t.args[0].value == "global_only" and not pol:
+                return True
+            if isinstance(t, ast.Subscript) and unparse(t.value).endswith(".metadata") and isinstance(t.slice, ast.Constant) and t.slice.value == "global_only" and not pol:
+                return True
+            if isinstance(t, ast.Compare) and len(t.ops) == 1 and isinstance(t.ops[0], (ast.In, ast.NotIn)) and isinstance(t.comparators[0], (ast.Tuple, ast.List, ast.Set, ast.Name)):
+                r = t.comparators[0]
+                r = f.module.const_nodes.get(r.id, r) if isinstance(r, ast.Name) else r
+                if isinstance(r, (ast.Tuple, ast.List, ast.Set)) and {x.value for x in r.elts if isinstance(x, ast.Constant)} >= set(go):
+                    if (isinstance(t.ops[0], ast.In) and not pol) or (isinstance(t.ops[0], ast.NotIn) and pol):
+                        return True
+        return False
+
+    # the application may have been extracted into a helper: it is then judged inside the helper, and - if the helper
+    # does not refuse the field itself - at the helper's call site in the merge loop
     g = get_callgraph(corpus)
+    obligations: list[tuple[FunctionInfo, ast.AST]] = [(mfl, c) for c in applies]
     for call, targets in g.callees(mfl):
-        if any(isinstance(a, ast.For) for a in ancestors(call)) and any(not t.is_lambda and t.fq != mfl.fq and t.module is mfl.module and applies_value(t) for t in g.flat_targets(targets)):
-            applies.append(call)  # the application was extracted into a helper: the call site is what must be guarded
-    if not applies:
-        rep.error("C01.R18", f"{mfl.site()}: merge_file_level no longer applies the front-matter values with setattr / validate_field")
+        if not any(isinstance(a, ast.For) for a in ancestors(call)):
+            continue
+        for t in g.flat_targets(targets):
+            if t.is_lambda or t.fq == mfl.fq or t.module is not mfl.module:
+                continue
+            inner = [c for c in t.local_nodes() if is_application(c)]
+            if not inner:
+                continue
+            if all(refused_at(t, c) for c in inner):
+                obligations.append((t, inner[0]))  # discharged inside the helper (kept for the instance count)
+            else:
+                obligations.append((mfl, call))
+    if not obligations:
+        rep.error("C01.R18", f"{mfl.site()}: merge_file_level no longer applies the front-matter values with setattr / validate_field (directly or in a helper of its loop)")
     k = f"{mfl.fq}|global_only fields refused"
     if not go:
         rep.ok("C01.R18", k, mfl.site(), "no configuration field is marked global_only")
     else:
-        bad = None
-        for c in applies:
-            refused = False
-            for t, pol in cfg.guards(cfg.stmt_of(c)):
-                t = _single_def(mfl, t)
-                if isinstance(t, ast.Call) and isinstance(t.func, ast.Attribute) and t.func.attr == "get" and unparse(t.func.value).endswith(".metadata") and t.args and isinstance(t.args[0], ast.Constant) and t.args[0].value == "global_only" and not pol:
-                    refused = True
-                if isinstance(t, ast.Subscript) and unparse(t.value).endswith(".metadata") and isinstance(t.slice, ast.Constant) and t.slice.value == "global_only" and not pol:
-                    refused = True
-                if isinstance(t, ast.Compare) and len(t.ops) == 1 and isinstance(t.ops[0], (ast.In, ast.NotIn)) and isinstance(t.comparators[0], (ast.Tuple, ast.List, ast.Set, ast.Name)):
-                    r = t.comparators[0]
-                    r = mfl.module.const_nodes.get(r.id, r) if isinstance(r, ast.Name) else r
-                    if isinstance(r, (ast.Tuple, ast.List, ast.Set)) and {x.value for x in r.elts if isinstance(x, ast.Constant)} >= set(go):
-                        if (isinstance(t.ops[0], ast.In) and not pol) or (isinstance(t.ops[0], ast.NotIn) and pol):
-                            refused = True
-            if not refused:
-                bad = c
-                break
+        bad = next(((f, c) for f, c in obligations if not refused_at(f, c)), None)
         if bad is None:
             rep.ok("C01.R18", k, mfl.site(), f"every application of a front-matter value is dominated by the refusal of global_only fields ({', '.join(go)})")
         else:
             rep.violation(
                 "C01.R18",
                 k,
-                mfl.module.site(bad),
-                f"`{short(bad, 50)}` applies a front-matter value without first refusing the global_only fields ({', '.join(go)}): `myst: {{heading_slug_func: os._exit}}` makes the parse "
+                bad[0].module.site(bad[1]),
+                f"`{short(bad[1], 50)}` applies a front-matter value without first refusing the global_only fields ({', '.join(go)}): `myst: {{heading_slug_func: os._exit}}` makes the parse "
                 "import and call what the document names (SystemExit / process exit / arbitrary code out of the parse)",
             )
     # (b) Jinja environments
@@ -4001,6 +4028,21 @@ def mutants(corpus: Corpus):
         out.append(Mutant("c01-disable-ignore-invalid-false", "C01.R11", mdm_.rel, splice(mdm_.src, dcall.args[1], "False"), expect="unknown names"))
     else:
         out.append(("c01-disable-ignore-invalid-dropped", "create_md_parser does not call md.disable(x, True)"))
+    # --- the escape digits are consumed before they are validated (catalogue: forward(N) before its validation loop) ---
+    f = om.func("_scan_flow_scalar_non_spaces")
+    vloop = find_node(f, lambda n: isinstance(n, ast.For) and isinstance(n.iter, ast.Call) and dotted(n.iter.func) == "range" and any(isinstance(x, ast.Raise) for x in ast.walk(n)))
+    fwd = None
+    if vloop is not None:
+        blk_ = next((b for a_ in [parent(vloop)] for fld in ("body", "orelse") for b in [getattr(a_, fld, None)] if isinstance(b, list) and vloop in b), None)
+        if blk_ is not None:
+            fwd = next((x for x in blk_[blk_.index(vloop) + 1 :] if isinstance(x, ast.Expr) and isinstance(x.value, ast.Call) and unparse(x.value.func).endswith(".forward") and x.value.args and unparse(x.value.args[0]) == unparse(vloop.iter.args[0])), None)
+    if vloop is not None and fwd is not None:
+        ind = " " * vloop.col_offset
+        src_ = splice(om.src, fwd, "pass")  # later statement first
+        src_ = splice(src_, vloop, f"digits_ = {unparse(fwd.value.func.value)}.prefix({unparse(fwd.value.args[0])})\n{ind}{unparse(fwd)}\n{ind}for d_ in digits_:\n{ind}    if d_ not in '0123456789ABCDEFabcdef':\n{ind}        raise TokenizeError('bad escape', {unparse(fwd.value.func.value)}.get_position())")
+        out.append(Mutant("c01-escape-digits-consumed-before-validation", "C01.R1", om.rel, src_, expect="|IndexError|"))
+    else:
+        out.append(("c01-escape-digits-consumed-before-validation", "_scan_flow_scalar_non_spaces: validation loop / forward(length) not found"))
     # --- the raw clean-up loops flattened over all roots before anything is removed (R23) ---
     for modname, q, tag in (("parsers.docutils_", "Parser.parse", "docutils"), ("parsers.sphinx_", "MystParser.parse", "sphinx")):
         pm = corpus.mod(modname)
